@@ -201,7 +201,7 @@ ADD5 = {
     "C14": ("; FieldOfView.fromConfig hands each constructor parameter the configuration field of the same name (R13)", ""),
     "C16": ("; between the Observation record and the filter an angle is only re-represented by period-preserving maps (R6); an observation list re-bound to a keyed / stateful selection made while iterating over it is reported as order-dependent (R5)", ""),
     "C17": ("; checkManeuverDetection calls the detector unconditionally and raises the flag iff it fired (R4); every filter gets a detector created by its own factory call - never one kept in a module-level / class-level container or behind a memoising decorator (R5)", "; freshness provenance (rsa/fresh.py)"),
-    "C18": ("; adaptiveEstimationFactory hands every estimate a multiple-model filter created by that call (R7)", "; freshness provenance (rsa/fresh.py)"),
+    "C18": ("; adaptiveEstimationFactory hands every estimate a multiple-model filter created by that call (R7); model weights computed as shares of a total never pass their terms through a clipping / rounding / masking operation that makes all-zero terms (0 / 0 = NaN) an ordinary input (R8)", "; freshness provenance (rsa/fresh.py); def-use scan of share-of-total computations"),
     "C19": ("; every database interface creates its engine in its own construction, through helper overrides of every subclass, for the URL it was given (R6)", "; freshness provenance (rsa/fresh.py)"),
     "C20": ("; the second Lambert position of the IOD is the inversion of one radar observation of the step or a mean over exactly the inverted ones (R3)", ""),
 }
